@@ -125,7 +125,7 @@ func runC20(p *eng.Prog, r *eng.Report, tier string) {
 				switch s := st.(type) {
 				case *ast.AssignStmt:
 				case *ast.IfStmt, *ast.SwitchStmt:
-					cond, body, els, isIf := asIf(st)
+					cond, body, els, isIf := asIfIn(lf, st)
 					if !isIf || els != nil {
 						okShape = false
 						continue
